@@ -463,14 +463,24 @@ Proof.
   - apply memb_false in E. simpl. tauto.
 Qed.
 
+Lemma remove_one_In x y l : In y (remove_one x l) -> In y l.
+Proof.
+  induction l as [|a l IH]; simpl; [tauto|]. destruct (Nat.eqb a x); [now right|].
+  intros [H|H]; [now left|right; now apply IH].
+Qed.
+
+Lemma entries_succ p r : In r (entries succ subject p) -> In r (succ p).
+Proof. unfold entries. destruct (subject p); [apply remove_one_In|tauto]. Qed.
+
 Section Delete.
 Variable st0 : state.
 Variable x : nat.
 Let G := gnodes st0.
 Let B := blobs st0.
 
-(* p holds r: p lists r other than as its subject (a referrer does not keep its subject) *)
-Definition holds (p r : nat) : Prop := In r (succ p) /\ subject p <> Some r.
+(* p holds r: r is an entry of p (manifests, layers, config, blobs), not merely its subject
+   (a referrer does not keep its subject alive) *)
+Definition holds (p r : nat) : Prop := In r (entries succ subject p).
 
 (* the set Delete(x) removes when AutoGC is on: least set containing x, closed under
    "untagged manifest of the store whose subject (a manifest) was removed and whose holders
@@ -545,14 +555,11 @@ Qed.
 Lemma held_spec g seen r :
   held succ subject g seen r = true <-> exists p, In p g /\ holds p r /\ ~ In p seen.
 Proof.
-  unfold held. rewrite existsb_exists. split.
+  unfold held, holds. rewrite existsb_exists. split.
   - intros (p & Hp & H). apply preds_In in Hp as [Hg Hs]. apply andb_true_iff in H as [H1 H2].
-    apply negb_true_iff in H1, H2. apply memb_false in H1. exists p. repeat split; try assumption.
-    intro E. apply has_subject_spec in E. congruence.
-  - intros (p & Hg & [Hs Hn] & Hq). exists p. split; [apply preds_In; tauto|].
-    apply andb_true_iff. split; apply negb_true_iff.
-    + now apply memb_false.
-    + destruct (has_subject subject r p) eqn:E; [|reflexivity]. apply has_subject_spec in E. contradiction.
+    apply negb_true_iff in H1. apply memb_false in H1. apply memb_In in H2. eauto.
+  - intros (p & Hg & Hh & Hq). exists p. split; [apply preds_In; split; [assumption|now apply entries_succ]|].
+    apply andb_true_iff. split; [apply negb_true_iff; now apply memb_false|now apply memb_In].
 Qed.
 
 Lemma delete_loop_spec : forall fuel k st queue seen proc pending,
@@ -816,7 +823,7 @@ Proof. destruct 1; auto. Qed.
 Lemma gone_holders y : Gone y -> y <> x -> forall p, In p G -> holds p y -> Gone p.
 Proof.
   intros H Hne. destruct H as [|r m _ _ _ _ _ Hh|d _ _ _ Hall]; [congruence|exact Hh|].
-  intros p Hp [Hs _]. now apply Hall.
+  intros p Hp Hh. apply Hall; [assumption|]. now apply entries_succ.
 Qed.
 
 End Delete.
@@ -1236,13 +1243,13 @@ Qed.
 Lemma delete_never_final : forall succ subject manifest st x y,
   Gone succ subject manifest st x y -> y <> x ->
   is_tagged st y = false /\ In y (gnodes st) /\
-  (forall p, In p (gnodes st) -> In y (succ p) -> subject p <> Some y ->
+  (forall p, In p (gnodes st) -> In y (entries succ subject p) ->
              Gone succ subject manifest st x p).
 Proof.
   intros succ subject manifest st x y HG Hn. split; [|split].
   - eapply gone_untagged; eauto.
   - destruct (gone_in_store _ _ _ _ _ _ HG); [contradiction|assumption].
-  - intros p Hp Hs Hne. eapply gone_holders; eauto. split; assumption.
+  - intros p Hp Hs. eapply gone_holders; eauto.
 Qed.
 
 Lemma delete_plain_final : forall succ subject manifest st x ord,
